@@ -387,7 +387,7 @@ func TestGenerated(t *testing.T) {
 	var dir string
 	var batch []item
 	n := 0
-	rt.Check(t, 20000, 2000000, func(t *rapid.T) {
+	rt.Check(t, 20000, 5000000, func(t *rapid.T) {
 		s := genString().Draw(t, "s")
 		for _, fn := range fns {
 			if msg := modelCheck(fn, s); msg != "" {
